@@ -36,7 +36,8 @@ THEOREMS = ["Hyp.Concurrency." + t for t in (
     "c19_field_init", "c19_field_txn_refines", "c19_field_conflict_or_serial", "c19_field_serial_refines",
     "c19_field_merged_observes_serial", "c19_d20_unrepaired_loses_update", "c19_d20_repaired_conflicts",
     "c19_replacement_conflicts", "c19_keyword_no_orphan_merge", "c19_keyword_init", "c19_keyword_txn_refines",
-    "c19_keyword_conflict_or_serial", "c19_keyword_serial_refines", "c19_keyword_merged_observes_serial")]
+    "c19_keyword_conflict_or_serial", "c19_keyword_serial_refines", "c19_keyword_merged_observes_serial",
+    "c19_field_reachable_base", "c19_keyword_reachable_base")]
 CASES = {"quick": 640, "thorough": 12000}
 BUDGET_S = {"quick": 50, "thorough": 800}
 BATCH = 10
